@@ -145,9 +145,24 @@ func (e *kvElection) checkKeyAndReelect(ctx context.Context) {
 				zap.String("new_leader_id", newLeaderID),
 			)...,
 		)
-		e.leaderID.Store(newLeaderID)
-		e.revision.Store(entry.Revision())
+		e.observeLeader(newLeaderID, entry.Revision())
 	}
+}
+
+// observeLeader records the record of another instance as seen by a follower
+// (watch event, periodic check, refused takeover). These reads can be stale by
+// the time they are processed: once this instance leads, its leader ID and -
+// above all - the revision its heartbeat presents must only come from its own
+// writes, so the update is dropped. becomeLeader holds e.mu as well.
+func (e *kvElection) observeLeader(id string, rev uint64) {
+	e.mu.Lock()
+	defer e.mu.Unlock()
+
+	if e.isLeader.Load() {
+		return
+	}
+	e.leaderID.Store(id)
+	e.revision.Store(rev)
 }
 
 // handleWatchEvent processes watch events and triggers re-election when the key is deleted
@@ -220,12 +235,10 @@ func (e *kvElection) handleWatchEvent(entry Entry) {
 				zap.Uint64("revision", entry.Revision()),
 			)...,
 		)
-		e.leaderID.Store(newLeaderID)
-		e.revision.Store(entry.Revision())
+		e.observeLeader(newLeaderID, entry.Revision())
 		return
 	}
-	e.leaderID.Store(newLeaderID)
-	e.revision.Store(entry.Revision())
+	e.observeLeader(newLeaderID, entry.Revision())
 
 	// Check if we should attempt priority takeover
 	if e.cfg.AllowPriorityTakeover && e.cfg.Priority > payload.Priority {
